@@ -309,7 +309,24 @@ func (g *schemaGen) annotationSchema(depth int) map[string]any {
 			}
 			return map[string]any{}
 		case 8:
-			return map[string]any{"properties": map[string]any{k(): map[string]any{}}, "dependentSchemas": map[string]any{k(): map[string]any{"properties": map[string]any{k(): map[string]any{}}}, k(): map[string]any{"properties": map[string]any{k(): map[string]any{}}}}}
+			// dependent subschemas, each of which evaluates a member when it passes; some of them fail
+			dep := func() map[string]any {
+				switch c.W(4) {
+				case 0:
+					return map[string]any{"properties": map[string]any{k(): map[string]any{}}, "required": []any{k()}}
+				case 1:
+					return map[string]any{"properties": map[string]any{k(): map[string]any{"type": pick(c, typePool)}}}
+				case 2:
+					return map[string]any{"properties": map[string]any{k(): map[string]any{}, k(): false}}
+				default:
+					return map[string]any{"properties": map[string]any{k(): map[string]any{}}}
+				}
+			}
+			s := map[string]any{"dependentSchemas": map[string]any{k(): dep(), k(): dep(), k(): dep()}}
+			if c.W(2) == 0 {
+				s["properties"] = map[string]any{k(): map[string]any{}}
+			}
+			return s
 		case 6:
 			return map[string]any{"properties": map[string]any{k(): map[string]any{}}, "unevaluatedProperties": c.W(2) == 0}
 		default:
